@@ -209,20 +209,21 @@ def monthrange (y m : Int) : R Int :=
 
 /-- the common tail of `_ymd.append`: `big` says the value carries a century
     (string of more than two digits / number above 100) -/
-def Ymd.appendCore (self : Ymd) (big : Bool) (v : R Nat) (label : Label) : R Ymd := do
-  let (century, label) ←
-    if big then
-      if label ≠ .none ∧ label ≠ .Y then throw PyErr.ValueError else pure (true, Label.Y)
-    else pure (self.century, label)
-  let n ← v                                  -- `int(val)`
-  let vals := self.vals ++ [n]
-  let idx := vals.length - 1
-  let self := { self with vals := vals, century := century }
-  match label with
-  | .M => if self.mIdx.isSome then throw .ValueError else pure { self with mIdx := some idx }
-  | .D => if self.dIdx.isSome then throw .ValueError else pure { self with dIdx := some idx }
-  | .Y => if self.yIdx.isSome then throw .ValueError else pure { self with yIdx := some idx }
-  | .none => pure self
+def Ymd.appendCore (self : Ymd) (big : Bool) (v : R Nat) (label : Label) : R Ymd :=
+  -- `if label not in [None, 'Y']: raise ValueError(label)` (only when the value carries a century)
+  if big ∧ label ≠ .none ∧ label ≠ .Y then .error .ValueError else
+  let century := big || self.century
+  let label := if big then Label.Y else label
+  match v with                                 -- `int(val)`
+  | .error e => .error e
+  | .ok n =>
+    let idx := self.vals.length                -- `len(self) - 1` after the append
+    let self' : Ymd := { self with vals := self.vals ++ [n], century := century }
+    match label with
+    | .M => if self.mIdx.isSome then .error .ValueError else .ok { self' with mIdx := some idx }
+    | .D => if self.dIdx.isSome then .error .ValueError else .ok { self' with dIdx := some idx }
+    | .Y => if self.yIdx.isSome then .error .ValueError else .ok { self' with yIdx := some idx }
+    | .none => .ok self'
 
 /-- `ymd.append(str)` -/
 def Ymd.appendTok (cls : Char → CClass) (self : Ymd) (t : Token) (label : Label := .none) : R Ymd :=
@@ -258,21 +259,29 @@ def Ymd.couldBeDay (self : Ymd) (v : Dec) : R Bool :=
 
 abbrev YMD := Option Nat × Option Nat × Option Nat
 
-/-- `_resolve_from_stridxs` (the two `assert`s hold whenever it is called) -/
-def Ymd.resolveFromStridxs (self : Ymd) : R YMD := do
-  let strids : List (Char × Nat) :=
-    (match self.yIdx with | some i => [('y', i)] | none => []) ++
-    (match self.mIdx with | some i => [('m', i)] | none => []) ++
-    (match self.dIdx with | some i => [('d', i)] | none => [])
+/-- `strids = {key: val for key, val in (('y', ystridx), ('m', mstridx), ('d', dstridx)) if val is not None}` -/
+def Ymd.strids (self : Ymd) : List (Char × Nat) :=
+  (match self.yIdx with | some i => [('y', i)] | none => []) ++
+  (match self.mIdx with | some i => [('m', i)] | none => []) ++
+  (match self.dIdx with | some i => [('d', i)] | none => [])
+
+/-- the first half of `_resolve_from_stridxs`: with three members and two labels the third
+    label is backed out; the two `assert`s are `AssertionError`s of the model -/
+def completeStrids (len : Nat) (strids : List (Char × Nat)) : R (List (Char × Nat)) := do
   let strids ←
-    if self.vals.length = 3 ∧ strids.length = 2 then
+    if len = 3 ∧ strids.length = 2 then
       let missing := [0, 1, 2].filter (fun x => !(strids.map (·.2)).contains x)
       let key := ['y', 'm', 'd'].filter (fun k => !(strids.map (·.1)).contains k)
       match missing, key with
       | [v], [k] => pure (strids ++ [(k, v)])
-      | _, _ => throw PyErr.AssertionError
+      | _, _ => throw PyErr.AssertionError          -- `assert len(missing) == len(key) == 1`
     else pure strids
-  if self.vals.length ≠ strids.length then throw .AssertionError
+  if len ≠ strids.length then throw .AssertionError  -- `assert len(self) == len(strids)`
+  pure strids
+
+/-- `_resolve_from_stridxs` -/
+def Ymd.resolveFromStridxs (self : Ymd) : R YMD := do
+  let strids ← completeStrids self.vals.length self.strids
   let get (k : Char) : R (Option Nat) :=
     match strids.find? (·.1 = k) with
     | some (_, i) => (self.at i).map some
@@ -281,13 +290,13 @@ def Ymd.resolveFromStridxs (self : Ymd) : R YMD := do
   let y ← get 'y'; let m ← get 'm'; let d ← get 'd'
   pure (y, m, d)
 
-/-- `_ymd.resolve_ymd` -/
-def Ymd.resolve (self : Ymd) (yearfirst dayfirst : Bool) : R YMD := do
-  let len := self.vals.length
-  let nlab := (if self.yIdx.isSome then 1 else 0) + (if self.mIdx.isSome then 1 else 0)
-              + (if self.dIdx.isSome then 1 else 0)
-  if (len = nlab ∧ nlab > 0) ∨ (len = 3 ∧ nlab = 2) then self.resolveFromStridxs
-  else if len > 3 then throw .ValueError
+/-- `len(strids)` -/
+def Ymd.nlab (self : Ymd) : Nat :=
+  (if self.yIdx.isSome then 1 else 0) + (if self.mIdx.isSome then 1 else 0) + (if self.dIdx.isSome then 1 else 0)
+
+/-- `_ymd.resolve_ymd` after the `_resolve_from_stridxs` shortcut (`len = len(self)`) -/
+def Ymd.resolveRest (self : Ymd) (len : Nat) (yearfirst dayfirst : Bool) : R YMD :=
+  if len > 3 then throw .ValueError
   else if len = 1 ∨ (self.mIdx.isSome ∧ len = 2) then
     -- one member, or two members with a month string
     match self.mIdx with
@@ -324,6 +333,12 @@ def Ymd.resolve (self : Ymd) (yearfirst dayfirst : Bool) : R YMD := do
       else if a > 12 ∨ (dayfirst ∧ b ≤ 12) then pure (some c, some b, some a)   -- 13-01-01
       else pure (some c, some a, some b)                             -- 01-13-01
   else pure (none, none, none)
+
+/-- `_ymd.resolve_ymd` -/
+def Ymd.resolve (self : Ymd) (yearfirst dayfirst : Bool) : R YMD :=
+  if (self.vals.length = self.nlab ∧ self.nlab > 0) ∨ (self.vals.length = 3 ∧ self.nlab = 2) then
+    self.resolveFromStridxs
+  else self.resolveRest self.vals.length yearfirst dayfirst
 
 /-! ### the result record -/
 
@@ -429,7 +444,108 @@ def assignHms (cls : Char → CClass) (res : Res) (valueRepr : Token) (hms : Nat
     pure { res with second := some s, microsecond := some us }
   else pure res
 
-/-- the last three arms of `_parse_numeric_token`: `could_be_day` / `not fuzzy` / nothing -/
+/-- `tokens[i] == t` (false past the end) -/
+def tokIs (tokens : List Token) (i : Nat) (t : Token) : Bool := tokens[i]? == some t
+
+/-- `info.hms(tokens[i]) is not None` (false past the end) -/
+def hmsAtIs (info : Info) (tokens : List Token) (i : Nat) : Bool := ((tokens[i]?).bind info.hmsOf).isSome
+
+/-! #### the arms of `_parse_numeric_token` (each returns how far `idx` moved, `ymd`, `res`) -/
+
+/-- `19990101T23[59]`: a 2- or 4-digit number after a complete date -/
+def numHourMin (cls : Char → CClass) (s : Token) (ymd : Ymd) (res : Res) : R (Nat × Ymd × Res) := do
+  let h ← pyInt cls (sl s 0 2)
+  if s.length = 4 then
+    let m ← pyInt cls (s.drop 2)
+    pure (0, ymd, { res with hour := some h, minute := some m })
+  else pure (0, ymd, { res with hour := some h })
+
+/-- `YYMMDD` or `HHMMSS[.ss]` -/
+def numSix (cls : Char → CClass) (s : Token) (ymd : Ymd) (res : Res) : R (Nat × Ymd × Res) :=
+  if ymd.vals.isEmpty ∧ !s.contains '.' then do
+    let ymd ← ymd.appendTok cls (sl s 0 2)
+    let ymd ← ymd.appendTok cls (sl s 2 4)
+    let ymd ← ymd.appendTok cls (s.drop 4)
+    pure (0, ymd, res)
+  else do
+    let h ← pyInt cls (sl s 0 2)
+    let m ← pyInt cls (sl s 2 4)
+    let su ← parsems cls (s.drop 4)
+    pure (0, ymd, { res with hour := some h, minute := some m, second := some su.1, microsecond := some su.2 })
+
+/-- `YYYYMMDD[hhmm[ss]]` (8, 12 or 14 characters) -/
+def numEight (cls : Char → CClass) (s : Token) (ymd : Ymd) (res : Res) : R (Nat × Ymd × Res) := do
+  let ymd ← ymd.appendTok cls (sl s 0 4) .Y
+  let ymd ← ymd.appendTok cls (sl s 4 6)
+  let ymd ← ymd.appendTok cls (sl s 6 8)
+  if s.length > 8 then
+    let h ← pyInt cls (sl s 8 10)
+    let m ← pyInt cls (sl s 10 12)
+    if s.length > 12 then
+      let sec ← pyInt cls (s.drop 12)
+      pure (0, ymd, { res with hour := some h, minute := some m, second := some sec })
+    else pure (0, ymd, { res with hour := some h, minute := some m })
+  else pure (0, ymd, res)
+
+/-- `HH[ ]h`, `MM[ ]m`, `SS[.ss][ ]s` (`_parse_hms` + `_assign_hms`): a label behind the number
+    means the NEXT unit -/
+def numHms (cls : Char → CClass) (valueRepr : Token) (idx hmsIdx h0 : Nat) (ymd : Ymd) (res : Res) :
+    R (Nat × Ymd × Res) := do
+  let res ← assignHms cls res valueRepr (if hmsIdx > idx then h0 else h0 + 1)
+  pure ((if hmsIdx > idx then hmsIdx else idx) - idx, ymd, res)
+
+/-- `HH:MM[:SS[.ss]]` -/
+def numColon (cls : Char → CClass) (tokens : List Token) (idx : Nat) (value : Dec) (ymd : Ymd) (res : Res) :
+    R (Nat × Ymd × Res) := do
+  let t2 ← tokAt tokens (idx + 2)
+  let v2 ← toDecimal cls t2
+  let ms ← parseMinSec v2
+  if idx + 4 < tokens.length ∧ tokIs tokens (idx + 3) [':'] then
+    let t4 ← tokAt tokens (idx + 4)
+    let su ← parsems cls t4
+    pure (4, ymd, { res with hour := some value.toNat, minute := some ms.1, second := some su.1, microsecond := some su.2 })
+  else pure (2, ymd, { res with hour := some value.toNat, minute := some ms.1, second := ms.2 })
+
+/-- the second member of `01-01[-01]` / `01-Jan[-01]` -/
+def sepSecond (cls : Char → CClass) (info : Info) (ymd : Ymd) (t2 : Token) : R Ymd :=
+  if isDigitTok cls t2 then ymd.appendTok cls t2
+  else match info.monthOf t2 with
+    | some mv => ymd.appendNat mv .M
+    | none => .error .ValueError
+
+/-- the third member -/
+def sepThird (cls : Char → CClass) (info : Info) (ymd : Ymd) (t4 : Token) : R Ymd :=
+  match info.monthOf t4 with
+  | some mv => ymd.appendNat mv .M
+  | none => ymd.appendTok cls t4
+
+/-- `01-01[-01]`, `01-Jan[-01]`: a number followed by `-`, `/` or `.` -/
+def numSep (cls : Char → CClass) (info : Info) (tokens : List Token) (idx : Nat) (valueRepr : Token)
+    (ymd : Ymd) (res : Res) : R (Nat × Ymd × Res) := do
+  let sep ← tokAt tokens (idx + 1)
+  let ymd ← ymd.appendTok cls valueRepr
+  match (if idx + 2 < tokens.length then tokens[idx + 2]? else none) with
+  | none => pure (1, ymd, res)
+  | some t2 =>
+    if info.isJump t2 then pure (1, ymd, res) else do
+    let ymd ← sepSecond cls info ymd t2
+    if idx + 3 < tokens.length ∧ tokIs tokens (idx + 3) sep then
+      -- three members
+      let t4 ← tokAt tokens (idx + 4)
+      let ymd ← sepThird cls info ymd t4
+      pure (4, ymd, res)
+    else pure (2, ymd, res)
+
+/-- a number followed by a jump word or by nothing: `12 am`, or a year / month / day -/
+def numJump (info : Info) (tokens : List Token) (idx : Nat) (value : Dec) (ymd : Ymd) (res : Res) :
+    R (Nat × Ymd × Res) :=
+  match (if idx + 2 < tokens.length then (tokens[idx + 2]?).bind info.ampmOf else none) with
+  | some ap => pure (2, ymd, { res with hour := some (adjustAmpm value.toNat ap) })
+  | none => do
+    let ymd ← ymd.appendDec value
+    pure (1, ymd, res)
+
+/-- the last three arms: `could_be_day` / `not fuzzy` / nothing -/
 def dayOrFail (fuzzy : Bool) (ymd : Ymd) (res : Res) (value : Dec) : R (Nat × Ymd × Res) := do
   let cbd ← ymd.couldBeDay value
   if cbd then
@@ -438,110 +554,34 @@ def dayOrFail (fuzzy : Bool) (ymd : Ymd) (res : Res) (value : Dec) : R (Nat × Y
   else if !fuzzy then throw .ValueError
   else pure (0, ymd, res)
 
+/-- `12am` (hour below 24 directly followed by an AM/PM word), else the last three arms -/
+def numAmpmOrDay (info : Info) (fuzzy : Bool) (tokens : List Token) (idx : Nat) (value : Dec) (ymd : Ymd)
+    (res : Res) : R (Nat × Ymd × Res) :=
+  match (tokens[idx + 1]?).bind info.ampmOf with
+  | some ap =>
+    if value.ltNat 24 then pure (1, ymd, { res with hour := some (adjustAmpm value.toNat ap) })
+    else dayOrFail fuzzy ymd res value
+  | none => dayOrFail fuzzy ymd res value
+
 /-- `_parse_numeric_token`; returns how far `idx` moved, and the new `ymd`, `res` -/
 def parseNumericToken (cls : Char → CClass) (info : Info) (fuzzy : Bool)
     (tokens : List Token) (idx : Nat) (ymd : Ymd) (res : Res) : R (Nat × Ymd × Res) := do
-  let valueRepr ← tokAt tokens idx
-  let value ← toDecimal cls valueRepr
-  let lenLi := valueRepr.length
-  let lenL := tokens.length
-  let s := valueRepr
-  let nextIs (k : Nat) (t : Token) : Bool := tokens[idx + k]? = some t
-  let nextHms : Bool := match tokens[idx + 1]? with
-    | some t => (info.hmsOf t).isSome
-    | none => false
-  if ymd.vals.length = 3 ∧ (lenLi = 2 ∨ lenLi = 4) ∧ res.hour.isNone ∧
-      (idx + 1 ≥ lenL ∨ (!nextIs 1 [':'] ∧ !nextHms)) then
-    -- 19990101T23[59]
-    let h ← pyInt cls (sl s 0 2)
-    let res := { res with hour := some h }
-    if lenLi = 4 then
-      let m ← pyInt cls (s.drop 2)
-      pure (0, ymd, { res with minute := some m })
-    else pure (0, ymd, res)
-  else if lenLi = 6 ∨ (lenLi > 6 ∧ s.idxOf '.' = 6) then
-    -- YYMMDD or HHMMSS[.ss]
-    if ymd.vals.isEmpty ∧ !s.contains '.' then
-      let ymd ← ymd.appendTok cls (sl s 0 2)
-      let ymd ← ymd.appendTok cls (sl s 2 4)
-      let ymd ← ymd.appendTok cls (s.drop 4)
-      pure (0, ymd, res)
-    else
-      let h ← pyInt cls (sl s 0 2)
-      let m ← pyInt cls (sl s 2 4)
-      let (sec, us) ← parsems cls (s.drop 4)
-      pure (0, ymd, { res with hour := some h, minute := some m, second := some sec, microsecond := some us })
-  else if lenLi = 8 ∨ lenLi = 12 ∨ lenLi = 14 then
-    -- YYYYMMDD[hhmm[ss]]
-    let ymd ← ymd.appendTok cls (sl s 0 4) .Y
-    let ymd ← ymd.appendTok cls (sl s 4 6)
-    let ymd ← ymd.appendTok cls (sl s 6 8)
-    if lenLi > 8 then
-      let h ← pyInt cls (sl s 8 10)
-      let m ← pyInt cls (sl s 10 12)
-      let res := { res with hour := some h, minute := some m }
-      if lenLi > 12 then
-        let sec ← pyInt cls (s.drop 12)
-        pure (0, ymd, { res with second := some sec })
-      else pure (0, ymd, res)
-    else pure (0, ymd, res)
+  let s ← tokAt tokens idx                    -- `value_repr`
+  let value ← toDecimal cls s
+  if ymd.vals.length = 3 ∧ (s.length = 2 ∨ s.length = 4) ∧ res.hour.isNone ∧
+      (idx + 1 ≥ tokens.length ∨ (!tokIs tokens (idx + 1) [':'] ∧ !hmsAtIs info tokens (idx + 1))) then
+    numHourMin cls s ymd res
+  else if s.length = 6 ∨ (s.length > 6 ∧ s.idxOf '.' = 6) then numSix cls s ymd res
+  else if s.length = 8 ∨ s.length = 12 ∨ s.length = 14 then numEight cls s ymd res
   else match findHmsIdx info idx tokens true with
-  | some (hmsIdx, h0) =>
-    -- HH[ ]h or MM[ ]m or SS[.ss][ ]s   (`_parse_hms`: a label behind the number means the NEXT unit)
-    let (newIdx, hms) := if hmsIdx > idx then (hmsIdx, h0) else (idx, h0 + 1)
-    let res ← assignHms cls res valueRepr hms
-    pure (newIdx - idx, ymd, res)
+  | some (hmsIdx, h0) => numHms cls s idx hmsIdx h0 ymd res
   | none =>
-  if idx + 2 < lenL ∧ nextIs 1 [':'] then
-    -- HH:MM[:SS[.ss]]
-    let res := { res with hour := some value.toNat }
-    let t2 ← tokAt tokens (idx + 2)
-    let v2 ← toDecimal cls t2
-    let (m, sec) ← parseMinSec v2
-    let res := { res with minute := some m, second := sec }
-    if idx + 4 < lenL ∧ nextIs 3 [':'] then
-      let t4 ← tokAt tokens (idx + 4)
-      let (sec, us) ← parsems cls t4
-      pure (4, ymd, { res with second := some sec, microsecond := some us })
-    else pure (2, ymd, res)
-  else if idx + 1 < lenL ∧ (nextIs 1 ['-'] ∨ nextIs 1 ['/'] ∨ nextIs 1 ['.']) then
-    let sep ← tokAt tokens (idx + 1)
-    let ymd ← ymd.appendTok cls valueRepr
-    let t2? := tokens[idx + 2]?
-    match (if idx + 2 < lenL then t2? else none) with
-    | some t2 =>
-      if !info.isJump t2 then
-        let ymd ←
-          if isDigitTok cls t2 then ymd.appendTok cls t2        -- 01-01[-01]
-          else match info.monthOf t2 with                      -- 01-Jan[-01]
-            | some mv => ymd.appendNat mv .M
-            | none => throw PyErr.ValueError
-        if idx + 3 < lenL ∧ tokens[idx + 3]? = some sep then
-          -- three members
-          let t4 ← tokAt tokens (idx + 4)
-          let ymd ← match info.monthOf t4 with
-            | some mv => ymd.appendNat mv .M
-            | none => ymd.appendTok cls t4
-          pure (4, ymd, res)
-        else pure (2, ymd, res)
-      else pure (1, ymd, res)
-    | none => pure (1, ymd, res)
-  else if idx + 1 ≥ lenL ∨ (tokens[idx + 1]?).any info.isJump then
-    match (if idx + 2 < lenL then (tokens[idx + 2]?).bind info.ampmOf else none) with
-    | some ap =>
-      -- 12 am
-      pure (2, ymd, { res with hour := some (adjustAmpm value.toNat ap) })
-    | none =>
-      -- year, month or day
-      let ymd ← ymd.appendDec value
-      pure (1, ymd, res)
-  else match (tokens[idx + 1]?).bind info.ampmOf with
-  | some ap =>
-    if value.ltNat 24 then
-      -- 12am
-      pure (1, ymd, { res with hour := some (adjustAmpm value.toNat ap) })
-    else dayOrFail fuzzy ymd res value
-  | none => dayOrFail fuzzy ymd res value
+  if idx + 2 < tokens.length ∧ tokIs tokens (idx + 1) [':'] then numColon cls tokens idx value ymd res
+  else if idx + 1 < tokens.length ∧
+      (tokIs tokens (idx + 1) ['-'] ∨ tokIs tokens (idx + 1) ['/'] ∨ tokIs tokens (idx + 1) ['.']) then
+    numSep cls info tokens idx s ymd res
+  else if idx + 1 ≥ tokens.length ∨ (tokens[idx + 1]?).any info.isJump then numJump info tokens idx value ymd res
+  else numAmpmOrDay info fuzzy tokens idx value ymd res
 
 /-! ### `_parse` -/
 
@@ -552,104 +592,115 @@ structure PState where
   skipped : List Nat := []
   deriving Repr, DecidableEq, Inhabited
 
+/-! #### the arms of the `while` body (each returns how many FURTHER tokens were consumed) -/
+
+/-- a month name: `Jan-01[-99]`, `Jan of 01`, or just the month -/
+def stepMonth (cls : Char → CClass) (info : Info) (lenL i : Nat) (st : PState) (mv : Nat) : R (Nat × PState) := do
+  let l := st.l
+  let ymd ← st.ymd.appendNat mv .M
+  if i + 1 < lenL then
+    let l1 ← tokAt l (i + 1)
+    if l1 = ['-'] ∨ l1 = ['/'] then
+      -- Jan-01[-99]
+      let l2 ← tokAt l (i + 2)
+      let ymd ← ymd.appendTok cls l2
+      if i + 3 < lenL ∧ tokIs l (i + 3) l1 then
+        -- Jan-01-99
+        let l4 ← tokAt l (i + 4)
+        let ymd ← ymd.appendTok cls l4
+        pure (4, { st with ymd := ymd })
+      else pure (2, { st with ymd := ymd })
+    else if i + 4 < lenL ∧ l1 = [' '] ∧ tokIs l (i + 3) [' '] ∧ (l[i + 2]?).any info.isPertain then
+      -- Jan of 01: in this case 01 is clearly the year
+      let l4 ← tokAt l (i + 4)
+      if isDigitTok cls l4 then
+        let value ← pyInt cls l4
+        let year ← Gen.convertyear ⟨info.century, info.year⟩ value false
+        -- `str(year)` then `ymd.append(year, 'Y')`: a decimal string
+        let ymd ← ymd.appendCore ((toString year).length > 2) (.ok year.toNat) .Y
+        pure (4, { st with ymd := ymd })
+      else pure (4, { st with ymd := ymd })
+    else pure (0, { st with ymd := ymd })
+  else pure (0, { st with ymd := ymd })
+
+/-- an AM/PM word -/
+def stepAmpm (fuzzy : Bool) (i : Nat) (st : PState) (ap : Nat) : R (Nat × PState) := do
+  let ok ← ampmValid st.res.hour st.res.ampm fuzzy
+  match ok with
+  | some h => pure (0, { st with res := { st.res with hour := some (adjustAmpm h ap), ampm := some ap } })
+  | none =>
+    if fuzzy then pure (0, { st with skipped := st.skipped ++ [i] })
+    else pure (0, st)
+
+/-- a time zone name; `GMT+3` / `BRST+3` mean "my time +3 is GMT": the sign token is reversed
+    in place so that the offset arm gets it right -/
+def stepTzname (info : Info) (lenL i : Nat) (st : PState) (li : Token) : Nat × PState :=
+  let res := { st.res with tzname := some li, tzoffset := info.tzoffsetOf li }
+  match (if i + 1 < lenL then st.l[i + 1]? else none) with
+  | some l1 =>
+    if l1 = ['+'] ∨ l1 = ['-'] then
+      (0, { st with l := st.l.set (i + 1) (if l1 = ['+'] then ['-'] else ['+']),
+                    res := { res with tzoffset := none,
+                                      tzname := if info.isUtczone li then none else some li } })
+    else (0, { st with res := res })
+  | none => (0, { st with res := res })
+
+/-- `-0300`, `-03:00`, `-[0]3`: hours, minutes and how many extra tokens the spelling took -/
+def tzOffsetDigits (cls : Char → CClass) (l : List Token) (lenL i : Nat) : R (Nat × Nat × Nat) := do
+  let l1 ← tokAt l (i + 1)
+  if l1.length = 4 then                                   -- -0300
+    let h ← pyInt cls (sl l1 0 2)
+    let m ← pyInt cls (l1.drop 2)
+    pure (h, m, 0)
+  else if i + 2 < lenL ∧ tokIs l (i + 2) [':'] then       -- -03:00
+    let h ← pyInt cls l1
+    let l3 ← tokAt l (i + 3)
+    let m ← pyInt cls l3
+    pure (h, m, 2)
+  else if l1.length ≤ 2 then                              -- -[0]3
+    let h ← pyInt cls (sl l1 0 2)
+    pure (h, 0, 0)
+  else throw PyErr.ValueError
+
+/-- a time zone name between parentheses after the offset: `-0300 (BRST)` -/
+def tzParenName (info : Info) (l : List Token) (lenL i' : Nat) (res : Res) : Option Token :=
+  if i' + 5 < lenL then
+    match l[i' + 2]?, l[i' + 3]?, l[i' + 4]?, l[i' + 5]? with
+    | some t2, some t3, some t4, some t5 =>
+      if info.isJump t2 ∧ t3 = ['('] ∧ t5 = [')'] ∧ 3 ≤ t4.length ∧
+         couldBeTzname info res.hour res.tzname none t4 then some t4 else none
+    | _, _, _, _ => none
+  else none
+
+/-- a numbered time zone -/
+def stepTzoffset (cls : Char → CClass) (info : Info) (lenL i : Nat) (st : PState) (li : Token) : R (Nat × PState) := do
+  let signal : Int := if li = ['+'] then 1 else -1
+  let hma ← tzOffsetDigits cls st.l lenL i
+  let res := { st.res with tzoffset := some (signal * ((hma.1 : Int) * 3600 + (hma.2.1 : Int) * 60)) }
+  match tzParenName info st.l lenL (i + hma.2.2) res with
+  | some t4 => pure (hma.2.2 + 4 + 1, { st with res := { res with tzname := some t4 } })
+  | none => pure (hma.2.2 + 1, { st with res := res })
+
 /-- the body of `while i < len_l` for one `i`: how many FURTHER tokens were consumed
     (`i` ends up at `i + adv + 1`) and the new state -/
 def parseStep (cls : Char → CClass) (info : Info) (fuzzy : Bool) (lenL : Nat) (i : Nat) (st : PState) :
     R (Nat × PState) := do
-  let l := st.l
-  let li ← tokAt l i
-  if floatOk cls li then
+  let li ← tokAt st.l i
+  if floatOk cls li then do
     -- numeric token
-    let (adv, ymd, res) ← parseNumericToken cls info fuzzy l i st.ymd st.res
-    pure (adv, { st with ymd := ymd, res := res })
+    let r ← parseNumericToken cls info fuzzy st.l i st.ymd st.res
+    pure (r.1, { st with ymd := r.2.1, res := r.2.2 })
   else match info.weekdayOf li with
   | some wd => pure (0, { st with res := { st.res with weekday := some wd } })
   | none =>
   match info.monthOf li with
-  | some mv => do
-    let ymd ← st.ymd.appendNat mv .M
-    if i + 1 < lenL then
-      let l1 ← tokAt l (i + 1)
-      if l1 = ['-'] ∨ l1 = ['/'] then
-        -- Jan-01[-99]
-        let sep := l1
-        let l2 ← tokAt l (i + 2)
-        let ymd ← ymd.appendTok cls l2
-        if i + 3 < lenL ∧ l[i + 3]? = some sep then
-          -- Jan-01-99
-          let l4 ← tokAt l (i + 4)
-          let ymd ← ymd.appendTok cls l4
-          pure (4, { st with ymd := ymd })
-        else pure (2, { st with ymd := ymd })
-      else if i + 4 < lenL ∧ l1 = [' '] ∧ l[i + 3]? = some [' '] ∧
-              (l[i + 2]?).any info.isPertain then
-        -- Jan of 01: in this case 01 is clearly the year
-        let l4 ← tokAt l (i + 4)
-        if isDigitTok cls l4 then
-          let value ← pyInt cls l4
-          let year ← Gen.convertyear ⟨info.century, info.year⟩ value false
-          -- `str(year)` then `ymd.append(year, 'Y')`: a decimal string
-          let ystr := (toString year).toList
-          let ymd ← ymd.appendCore (ystr.length > 2) (.ok year.toNat) .Y
-          pure (4, { st with ymd := ymd })
-        else pure (4, { st with ymd := ymd })
-      else pure (0, { st with ymd := ymd })
-    else pure (0, { st with ymd := ymd })
+  | some mv => stepMonth cls info lenL i st mv
   | none =>
   match info.ampmOf li with
-  | some ap => do
-    let ok ← ampmValid st.res.hour st.res.ampm fuzzy
-    match ok with
-    | some h => pure (0, { st with res := { st.res with hour := some (adjustAmpm h ap), ampm := some ap } })
-    | none =>
-      if fuzzy then pure (0, { st with skipped := st.skipped ++ [i] })
-      else pure (0, st)
+  | some ap => stepAmpm fuzzy i st ap
   | none =>
-  if couldBeTzname info st.res.hour st.res.tzname st.res.tzoffset li then
-    let res := { st.res with tzname := some li, tzoffset := info.tzoffsetOf li }
-    -- GMT+3 / BRST+3: "my time +3 is GMT": reverse the sign for the offset branch
-    match (if i + 1 < lenL then l[i + 1]? else none) with
-    | some l1 =>
-      if l1 = ['+'] ∨ l1 = ['-'] then
-        let l' := l.set (i + 1) (if l1 = ['+'] then ['-'] else ['+'])
-        let res := { res with tzoffset := none }
-        let res := if info.isUtczone li then { res with tzname := none } else res
-        pure (0, { st with l := l', res := res })
-      else pure (0, { st with res := res })
-    | none => pure (0, { st with res := res })
-  else if st.res.hour.isSome ∧ (li = ['+'] ∨ li = ['-']) then do
-    -- numbered time zone
-    let signal : Int := if li = ['+'] then 1 else -1
-    let l1 ← tokAt l (i + 1)
-    let lenLi := l1.length
-    let (hourOff, minOff, adv) ←
-      if lenLi = 4 then do                                   -- -0300
-        let h ← pyInt cls (sl l1 0 2)
-        let m ← pyInt cls (l1.drop 2)
-        pure (h, m, 0)
-      else if i + 2 < lenL ∧ l[i + 2]? = some [':'] then do  -- -03:00
-        let h ← pyInt cls l1
-        let l3 ← tokAt l (i + 3)
-        let m ← pyInt cls l3
-        pure (h, m, 2)
-      else if lenLi ≤ 2 then do                              -- -[0]3
-        let h ← pyInt cls (sl l1 0 2)
-        pure (h, 0, 0)
-      else throw PyErr.ValueError
-    let i' := i + adv
-    let res := { st.res with tzoffset := some (signal * ((hourOff : Int) * 3600 + (minOff : Int) * 60)) }
-    -- a time zone name between parentheses: -0300 (BRST)
-    let paren : Option Token :=
-      if i' + 5 < lenL then
-        match l[i' + 2]?, l[i' + 3]?, l[i' + 4]?, l[i' + 5]? with
-        | some t2, some t3, some t4, some t5 =>
-          if info.isJump t2 ∧ t3 = ['('] ∧ t5 = [')'] ∧ 3 ≤ t4.length ∧
-             couldBeTzname info res.hour res.tzname none t4 then some t4 else none
-        | _, _, _, _ => none
-      else none
-    match paren with
-    | some t4 => pure (adv + 4 + 1, { st with res := { res with tzname := some t4 } })
-    | none => pure (adv + 1, { st with res := res })
+  if couldBeTzname info st.res.hour st.res.tzname st.res.tzoffset li then pure (stepTzname info lenL i st li)
+  else if st.res.hour.isSome ∧ (li = ['+'] ∨ li = ['-']) then stepTzoffset cls info lenL i st li
   else if !(info.isJump li || fuzzy) then throw .ValueError
   else pure (0, { st with skipped := st.skipped ++ [i] })
 
@@ -728,34 +779,46 @@ def parseTokens (cls : Char → CClass) (info : Info) (o : Opts) (l : List Token
 
 def intMax : Int := 2147483647
 
+/-- the keyword value does not fit a C int -/
+def fieldBig (o : Option Nat) : Bool := match o with | some v => decide ((v : Int) > intMax) | none => false
+/-- the keyword value, or the default's field -/
+def fieldOr (o : Option Nat) (dv : Int) : Int := match o with | some v => v | none => dv
+
 /-- `default.replace(**repl)`: C-int conversion first (`OverflowError`), then field validation -/
 def dtReplace (dflt : DT) (y m d hh mm ss us : Option Nat) : R DT :=
-  let big (o : Option Nat) : Bool := match o with | some v => (v : Int) > intMax | none => false
-  if big y || big m || big d || big hh || big mm || big ss || big us then .error .OverflowError else
-  let g (o : Option Nat) (dv : Int) : Int := match o with | some v => v | none => dv
-  let t : DT := { y := g y dflt.y, m := g m dflt.m, d := g d dflt.d, hh := g hh dflt.hh,
-                  mm := g mm dflt.mm, ss := g ss dflt.ss, us := g us dflt.us }
-  if t.valid then .ok t else .error .ValueError
+  if fieldBig y || fieldBig m || fieldBig d || fieldBig hh || fieldBig mm || fieldBig ss || fieldBig us then
+    .error .OverflowError
+  else if (DT.mk (fieldOr y dflt.y) (fieldOr m dflt.m) (fieldOr d dflt.d) (fieldOr hh dflt.hh)
+            (fieldOr mm dflt.mm) (fieldOr ss dflt.ss) (fieldOr us dflt.us)).valid then
+    .ok (DT.mk (fieldOr y dflt.y) (fieldOr m dflt.m) (fieldOr d dflt.d) (fieldOr hh dflt.hh)
+            (fieldOr mm dflt.mm) (fieldOr ss dflt.ss) (fieldOr us dflt.us))
+  else .error .ValueError
 
 /-- `relativedelta(weekday=wd)` then `naive + rd`: forward to that weekday, zero days if already there -/
 def weekdayShift (naive : DT) (wd : Nat) : R DT :=
   if wd ≥ 7 then .error .IndexError          -- `weekdays[weekday]`
   else naive.addDays (Int.emod (7 - naive.weekday + wd) 7)
 
+/-- the `if 'day' not in repl` block of `_build_naive`: the day that goes into `replace`
+    (the parsed one; else the default's day clipped to the length of the resulting month; else none) -/
+def clipDay (res : Res) (dflt : DT) : R (Option Nat) :=
+  match res.day with
+  | some d => .ok (some d)
+  | none => do
+    let dim ← monthrange (fieldOr res.year dflt.y) (fieldOr res.month dflt.m)
+    if dflt.d > dim then pure (some dim.toNat) else pure none
+
+/-- `if res.weekday is not None and not res.day: naive + relativedelta(weekday=res.weekday)` -/
+def shiftBareWeekday (res : Res) (naive : DT) : R DT :=
+  match res.weekday with
+  | some wd => if res.day.isNone ∨ res.day = some 0 then weekdayShift naive wd else .ok naive
+  | none => .ok naive
+
 /-- `parser._build_naive` -/
 def buildNaive (res : Res) (dflt : DT) : R DT := do
-  let day ← match res.day with
-    | some d => pure (some d)
-    | none => do
-      let cyear : Int := match res.year with | some y => y | none => dflt.y
-      let cmonth : Int := match res.month with | some m => m | none => dflt.m
-      let cday := dflt.d
-      let dim ← monthrange cyear cmonth
-      if cday > dim then pure (some dim.toNat) else pure none
+  let day ← clipDay res dflt
   let naive ← dtReplace dflt res.year res.month day res.hour res.minute res.second res.microsecond
-  match res.weekday with
-  | some wd => if res.day.isNone ∨ res.day = some 0 then weekdayShift naive wd else pure naive
-  | none => pure naive
+  shiftBareWeekday res naive
 
 /-! ### `_build_tzaware` -/
 
@@ -797,6 +860,10 @@ def offsetOk (n : Int) : Bool :=
   let days := Int.ediv n 86400
   decide (-999999999 ≤ days) && decide (days ≤ 999999999)
 
+/-- `tz.tzoffset(name, n)`: `timedelta(seconds=n)` must be representable -/
+def fixedZone (name : Option Token) (n : Int) : R TzDescr :=
+  if offsetOk n then .ok (.fixed name n) else .error .OverflowError
+
 /-- `_build_tzinfo` + `naive.replace(tzinfo=…)` -/
 def buildTzinfo (tzi : TzInfos) (tzname : Option Token) (tzoffset : Option Int) : R TzDescr := do
   let data : TzData := match tzi with
@@ -812,26 +879,30 @@ def buildTzinfo (tzi : TzInfos) (tzname : Option Token) (tzoffset : Option Int) 
   | .obj k => pure (.viaTzinfos (.obj k) tzname)
   | .noneVal => pure (.viaTzinfos .noneVal tzname)
   | .str s => pure (.viaTzinfos (.str s) tzname)
-  | .int n => if offsetOk n then pure (.fixed tzname n) else throw .OverflowError
+  | .int n => fixedZone tzname n
   | .bad => throw .TypeError
+
+/-- `callable(tzinfos) or (tzinfos and res.tzname in tzinfos)` -/
+def TzInfos.applies (tzi : TzInfos) (tzname : Option Token) : Bool :=
+  match tzi with
+  | .callable _ _ => true
+  | .mapping entries => !entries.isEmpty && (lookupKey entries tzname).isSome
+  | .absent => false
+
+/-- truthiness of `res.tzname` -/
+def nameTruthy (n : Option Token) : Bool := match n with | some t => !t.isEmpty | none => false
 
 /-- `_build_tzaware`: the cascade, in the order of the code -/
 def buildTzaware (tznames : List Token) (tzi : TzInfos) (res : Res) : R TzDescr :=
-  let useTzinfos : Bool := match tzi with
-    | .callable _ _ => true
-    | .mapping entries => !entries.isEmpty && (lookupKey entries res.tzname).isSome
-    | .absent => false
-  let nameTruthy : Bool := match res.tzname with | some n => !n.isEmpty | none => false
-  if useTzinfos then buildTzinfo tzi res.tzname res.tzoffset
-  else if nameTruthy ∧ res.tzname.any tznames.contains then
+  if tzi.applies res.tzname then buildTzinfo tzi res.tzname res.tzoffset       -- tzinfos callable / mapping hit
+  else if nameTruthy res.tzname && res.tzname.any tznames.contains then       -- a name of the local zone
     .ok (.localZone (res.tzname.getD []))
-  else if res.tzoffset = some 0 then .ok .utc
-  else if res.tzoffset.any (· != 0) then
-    match res.tzoffset with
-    | some n => if offsetOk n then .ok (.fixed res.tzname n) else .error .OverflowError
-    | none => .ok .naive
-  else if !nameTruthy then .ok .naive
-  else .ok (.naiveWarn (res.tzname.getD []))
+  else if res.tzoffset = some 0 then .ok .utc                                 -- `res.tzoffset == 0`
+  else match res.tzoffset with
+    | some n => fixedZone res.tzname n                                        -- `elif res.tzoffset:` (non-zero)
+    | none =>
+      if !nameTruthy res.tzname then .ok .naive                               -- nothing about a zone was found
+      else .ok (.naiveWarn (res.tzname.getD []))                              -- a name nobody knows: warn, naive
 
 /-- `_assign_tzname`: which fold the result carries, given the zone's names for the wall time
     at fold 0 and fold 1 -/
